@@ -9,10 +9,13 @@ MC_Shapes == IF Thorough THEN { <<3>>, <<2, 3>>, <<2, 3, 2>>, <<1>>, <<2, 1>>, <
 MC_OuterPairs == { <<<<3>>, <<2>>>>, <<<<2, 3>>, <<2>>>>, <<<<2>>, <<2, 3>>>> }
                  \cup (IF Thorough THEN { <<<<2, 3>>, <<3, 2>>>>, <<<<1>>, <<3>>>> } ELSE {})
 
+MC_KindsSel == IF IOEnv.UFUNC_KIND = "all" THEN Kinds ELSE {IOEnv.UFUNC_KIND}
+
 ValRecord(c) == [name \in ValNames(c) |-> ExpValue(c, name).v]
 ExportLine ==
   Serialize(ToJson([case |-> cfg,
-                    exp |-> [shape |-> ExpShape(cfg), kind |-> ExpKind(cfg), vals |-> ValRecord(cfg)]]) \o "\n",
+                    exp |-> [shape |-> ExpShape(cfg), kind |-> ExpKind(cfg), vals |-> ValRecord(cfg),
+                             dtypes |-> [name \in ValNames(cfg) |-> [dt \in DTypes |-> ExpDType(cfg, name, dt)]]]]) \o "\n",
             IOEnv.OUT_FILE,
             [format |-> "TXT", charset |-> "UTF-8",
              openOptions |-> <<"WRITE", "CREATE", "APPEND">>]).exitValue = 0
